@@ -137,6 +137,11 @@ func (fr *frame) lookupLocal(name string, pos token.Pos) *Cell {
 			}
 		}
 	}
+	if a := fr.anchoredAlloc(name); a != nil {
+		if c := fr.cells[a]; c != nil {
+			return c
+		}
+	}
 	var best *Cell
 	var bestPos token.Pos = -1
 	for a, c := range fr.cells {
@@ -166,11 +171,63 @@ func (fr *frame) lookupHeapLocal(name string, pos token.Pos) *Ptr {
 	_, obj := sc.LookupParent(name, pos)
 	v, ok := obj.(*types.Var)
 	if !ok {
+		if a := fr.anchoredAlloc(name); a != nil {
+			if pv, ok := fr.env[a]; ok && pv.ptr != nil && pv.ptr.kind == pkHeap {
+				return pv.ptr
+			}
+		}
 		return nil
 	}
 	for val, pv := range fr.env {
 		if a, ok := val.(*ssa.Alloc); ok && a.Comment == name && a.Pos() == v.Pos() && pv.ptr != nil && pv.ptr.kind == pkHeap {
 			return pv.ptr
+		}
+	}
+	return nil
+}
+
+// namedLocals lists the function's named local variables (naive-form allocs, parameters included) in source order
+func namedLocals(fn *ssa.Function) []*ssa.Alloc {
+	var out []*ssa.Alloc
+	for _, b := range fn.Blocks {
+		for _, in := range b.Instrs {
+			if a, ok := in.(*ssa.Alloc); ok && a.Comment != "" && a.Comment != "rangeindex" && a.Comment != "complit" && a.Comment != "varargs" && !strings.HasPrefix(a.Comment, "defer$") && a.Pos().IsValid() {
+				out = append(out, a)
+			}
+		}
+	}
+	sort.SliceStable(out, func(i, j int) bool { return out[i].Pos() < out[j].Pos() })
+	return out
+}
+
+func localTypeString(a *ssa.Alloc) string {
+	return types.TypeString(a.Type().Underlying().(*types.Pointer).Elem(), func(p *types.Package) string { return p.Name() })
+}
+
+// anchoredAlloc resolves a name that no longer exists in the source through its positional anchor
+// (`local name type#k` in the contract): the k-th named local of that type. Used only when the name
+// itself is not declared in the function any more (i.e. the variable was renamed).
+func (fr *frame) anchoredAlloc(name string) *ssa.Alloc {
+	if fr.fc == nil || fr.fc.localAnchors == nil {
+		return nil
+	}
+	an, ok := fr.fc.localAnchors[name]
+	if !ok {
+		return nil
+	}
+	locals := namedLocals(fr.fn)
+	for _, a := range locals {
+		if a.Comment == name {
+			return nil // the name still exists: normal resolution applies
+		}
+	}
+	k := 0
+	for _, a := range locals {
+		if localTypeString(a) == an.typ {
+			k++
+			if k == an.ord {
+				return a
+			}
 		}
 	}
 	return nil
